@@ -169,6 +169,10 @@ def rand_lit(rng):
     return "".join(rng.choice(SPECIAL + list("abxy019")) for _ in range(rng.randint(1, 4)))
 
 
+# configuration roots with regex metacharacters (re.escape on the root matters)
+META_ROOTS = ["/data/c++/strings", "/x/gecko-strings (copy)", "/r[1]", "/a?b", "/p$q", "/d.e+f", "/w|z", "/{n}x"]
+
+
 class Env:
     """environment with, for every variable, its resolved value (None when the
     expansion is cut: unbound, self- or mutually-referential, wildcard value)"""
@@ -519,8 +523,8 @@ def gen_case(rng, two_starstar=False, loose=False):
         nb = nb + ["free"]
     c.atoms_a = gen_side(rng, wild, na, sps, lead_var=0.3)
     c.atoms_b = gen_side(rng, wild, nb, sps, lead_var=0.7)
-    roota = rng.choice([None] * 6 + ["/r", "/r/s", "/"])
-    rootb = rng.choice([None] * 6 + ["/l", "/abs"])
+    roota = rng.choice([None] * 6 + ["/r", "/r/s", "/"] + META_ROOTS)
+    rootb = rng.choice([None] * 6 + ["/l", "/abs"] + META_ROOTS[:3])
     c.a = (atoms_text(c.atoms_a), list(c.enva.pairs), roota)
     c.b = (atoms_text(c.atoms_b), list(c.envb.pairs), rootb)
     c.wild = [x for x in c.atoms_a if x[0] in ("S", "SS")]
@@ -661,7 +665,7 @@ def gen_op(rng, names):
             env = []
         return ("with_env", env)
     if k < 0.75:
-        return ("root", rng.choice(["/src/two", "/r", None]))
+        return ("root", rng.choice(["/src/two", "/r", None] + META_ROOTS[:5]))
     return ("concat", rng.choice(["toolkit/about.ftl", "/**", "/sub/*.ftl", "x", "{locale}.ftl"]),
             rng.choice([[], [], [("locale", "fr")]]))
 
@@ -746,6 +750,133 @@ def chain_paths(rng, base, ops, partner_side):
     return pool[:8] or ["x"]
 
 
+def root_shift(chk, case, base, ops, rooted, obs, paths):
+    """a root only prefixes: the rooted matcher's expansion is root + "/" + the unrooted
+    one's, and it matches root + "/" + p exactly when the unrooted matcher matches p"""
+    root = base[2]
+    for op in ops:
+        if op[0] == "root" and op[1] is not None:
+            root = op[1]
+    if root is None:
+        return
+    try:
+        plain = mk((base[0], base[1], None))
+        for op in ops:
+            if op[0] != "root":
+                plain = derive(plain, op)
+        s = str(plain)
+    except Exception:  # noqa
+        return
+    if s.startswith("/") or obs[0][0] != 0:
+        return
+    pre = root.rstrip("/") + "/" if root != "/" else "//"
+    if common.l2s(obs[0][1]) != pre + s:
+        # the first node decides about the root, not the whole expansion
+        return
+    chk.hist("oracle_root_shift", "meta" if root in META_ROOTS else "plain")
+    for p in [s] + [q for q in paths if not q.startswith("/")][:4]:
+        try:
+            a = plain.match(p)
+        except Exception:  # noqa
+            continue
+        try:
+            b = rooted.match(pre + p)
+        except Exception as e:  # noqa
+            b = repr(e)
+        if a != b:
+            chk.fail("root-not-a-plain-prefix", dict(case, root=root),
+                     {"path": p, "unrooted": a, "rooted": b})
+            return
+
+
+def run_equality(chk, model, n):
+    """Matcher.__eq__ / Pattern ==: pairs equal by construction and pairs that differ in
+    exactly one node"""
+    rng = chk.rng
+    reqs, impl, desc = [], [], []
+
+    def norm(atoms):
+        out = []
+        for a in atoms:
+            a = ("V", a[1]) if a[0] == "V" else a
+            if a[0] == "L" and out and out[-1][0] == "L":
+                out[-1] = ("L", out[-1][1] + a[1])
+            elif a != ("L", ""):
+                out.append(a)
+        return out
+
+    for i in range(n):
+        env = gen_env(rng, False)
+        names = [x for x in env.resolved if x not in ("topdir", "loc2")] or ["v"]
+        wild = [rng.choice(["S", "S", "SS"]) for _ in range(rng.choice([1, 1, 2]))]
+        atoms = gen_side(rng, wild, names, lead_var=0.5)
+        k = rng.random()
+        other = list(atoms)
+        kind = "same"
+        if k < 0.2:
+            kind = "respelled"
+            other = [("V", a[1], spell(a[1], rng)) if a[0] == "V" else a for a in atoms]
+        elif k < 0.45:
+            kind = "star-vs-starstar-end"
+            base = [a for a in atoms if a[0] not in ("S", "SS")] or [("L", "dir")]
+            if base[-1][0] == "L" and not base[-1][1].endswith("/"):
+                base[-1] = ("L", base[-1][1] + "/")
+            elif base[-1][0] != "L":
+                base.append(("L", "/"))
+            atoms, other = base + [("S",)], base + [("SS", "")]
+        elif k < 0.6:
+            kind = "star-vs-starstar-middle"
+            base = [a for a in atoms if a[0] not in ("S", "SS")] or [("L", "dir")]
+            atoms = [("L", "top/"), ("S",), ("L", "/")] + base
+            other = [("L", "top/"), ("SS", "/")] + base
+        elif k < 0.7:
+            kind = "literal-vs-variable"
+            atoms = atoms + [("L", "/locale")]
+            other = other + [("L", "/"), ("V", "locale", "{locale}")]
+        elif k < 0.8:
+            kind = "android-vs-locale"
+            atoms = atoms + [("L", "/"), ("A",)]
+            other = other + [("L", "/"), ("V", "locale", "{locale}")]
+        elif k < 0.9:
+            kind = "star-moved"
+            atoms = [("L", "a/"), ("S",), ("L", "/b/x")] + atoms
+            other = [("L", "a/x/b/"), ("S",)] + other
+        ra = rng.choice([None, None, "/r"])
+        rb = ra if rng.random() < 0.85 else ("/other" if ra is None else None)
+        ea = list(env.pairs)
+        eb = list(ea)
+        ek = rng.random()
+        env_conflict = False
+        if ek < 0.15 and eb:
+            j = rng.randrange(len(eb))
+            eb[j] = (eb[j][0], eb[j][1] + "x")
+            env_conflict = True
+        elif ek < 0.3:
+            eb = eb + [("extra", "e")]
+        elif ek < 0.4:
+            eb = eb[1:]
+        a = (atoms_text(atoms), ea, ra)
+        b = (atoms_text(other), eb, rb)
+        want = norm(atoms) == norm(other) and ra == rb and not env_conflict
+        chk.count(("eq", a, b))
+        chk.hist("equality", kind + ("=" if want else "!"))
+        got = impl_result(lambda: mk(a) == mk(b), int)
+        gotp = impl_result(lambda: (mk(a).pattern == mk(b).pattern) and not (mk(a).pattern != mk(b).pattern), int)
+        desc.append(("eq", a, b))
+        impl.append(got)
+        reqs.append((12, side_sx(a) + side_sx(b)))
+        if got != [0, int(want)]:
+            chk.fail("matcher-equality-wrong", {"a": a, "b": b, "kind": kind},
+                     {"got": got, "expected": want})
+        wantp = norm(atoms) == norm(other) and ra == rb
+        if gotp != [0, int(wantp)]:
+            chk.fail("pattern-equality-wrong", {"a": a, "b": b, "kind": kind},
+                     {"got": gotp, "expected": wantp})
+    if model:
+        outs = model.call(reqs)
+        chk.correspond("EQUALITY", desc, impl, outs)
+
+
 def run_stateful(chk, model, n, suite="STATEFUL"):
     rng = chk.rng
     reqs, impl, desc = [], [], []
@@ -807,6 +938,7 @@ def run_stateful(chk, model, n, suite="STATEFUL"):
                     if mres[0] == 0 and mres[1] and not p.startswith(common.l2s(pre[1])):
                         chk.fail("match-outside-prefix", case, {"path": p, "prefix": common.l2s(pre[1])})
             got = ok(a)
+            root_shift(chk, case, base, ops, fresh, a, paths)
         desc.append(case)
         impl.append(got)
         reqs.append((14, side_sx(base) + [[op_sx(o) for o in ops], [canon(p) for p in paths]]
